@@ -358,6 +358,18 @@ def _interning(rep, m, fn):
         missed = [edges for edges, kt2, _txt in lookups if kt2 == kt and edges]
         ok = any(sn not in cfg.reach(cfg.ENTRY, avoid_edges=edges) for edges in missed)
         stx = cfg.ast[sn]
+        if not ok and len(alternatives(kt)) > 1:
+            # a key variable that is re-bound on some paths (`resolved_key = key` ... `resolved_key = (category, unit, caption)`):
+            # each binding is held to the rule from where it is made - every path from the binding to the store passes the
+            # miss edge of a lookup under that binding's key
+            key_names = [t_.slice for t_ in getattr(stx, "targets", []) if isinstance(t_, ast.Subscript) and is_cache(t_.value) and isinstance(t_.slice, ast.Name) and res.term(t_.slice) == kt]
+            if key_names:
+                per = []
+                for ost, ot in res.origins(key_names[0]):
+                    m_ = [edges for edges, kt2, _txt in lookups if kt2 == ot and edges]
+                    start = cfg.node_of(ost) if ost is not None else cfg.ENTRY
+                    per.append(any(sn not in cfg.reach(start, avoid_edges=edges) or sn not in cfg.reach(cfg.ENTRY, avoid_edges=edges) for edges in m_))
+                ok = bool(per) and all(per)
         rep.check(ok, "C07.R5", NAME + ":store-after-miss:%s" % norm(ast.unparse(stx))[:70], "the intern table is written under a key only where a lookup under that key missed",
                   "`%s` stores under a key that was not looked up (and found missing) on every path to the store: an entry that other requests already received is replaced by a new object"
                   % norm(ast.unparse(stx))[:90], node=stx, fn=fn)
@@ -444,7 +456,27 @@ def _interning(rep, m, fn):
         elif isinstance(v, ast.Name) and v.id in stored_names:
             # the reaching definitions of the name at this return are all caching assignments
             t = res.term(v)
-            ok = all((x[0] == "call" and x[1] == ("name", "Quantity")) or cache_hit_term(x) for x in alternatives(t))
+
+            def hit_by_path(x):
+                """`q = cache.get(k)` / `if q is None: q = cache[k] = Quantity(...)` / `return q`: the looked-up value reaches
+                the return only over the edge on which it is not None (the other edge re-binds the name)"""
+                if not (x[0] == "call" and x[1][0] == "attr" and x[1][2] == "get" and len(x[2]) == 1 and any(y[0] == "attr" and y[2] == "quantities_cache" for y in alternatives(x[1][1]))):
+                    return False
+                defs_ = [s2 for s2 in own_statements(fn.node) if isinstance(s2, ast.Assign) and any(isinstance(t2, ast.Name) and t2.id == v.id for t2 in s2.targets)]
+                src_ = [s2 for s2 in defs_ if res.term(s2.value) == x]
+                if len(src_) != 1:
+                    return False
+                others = {cfg.node_of(s2) for s2 in defs_ if s2 is not src_[0]}
+                notnone = set()
+                for nid in cfg.nodes("test"):
+                    e_ = cfg.ast[nid]
+                    if isinstance(e_, ast.Compare) and len(e_.ops) == 1 and isinstance(e_.ops[0], (ast.Is, ast.IsNot)) and isinstance(e_.comparators[0], ast.Constant) and e_.comparators[0].value is None \
+                            and isinstance(e_.left, ast.Name) and e_.left.id == v.id:
+                        lab_ = "F" if isinstance(e_.ops[0], ast.Is) else "T"
+                        notnone |= {(nid, b_, l_) for (b_, l_) in cfg.succ[nid] if l_ == lab_}
+                return bool(notnone) and r not in cfg.reach(cfg.node_of(src_[0]), avoid=others, avoid_edges=notnone)
+
+            ok = all((x[0] == "call" and x[1] == ("name", "Quantity")) or cache_hit_term(x) or hit_by_path(x) for x in alternatives(t))
             rep.check(ok, "C07.R5", key, "returns the object that was just stored in the intern table",
                       "may return an object that was not stored in the intern table (%s)" % show(t, 160), node=st, fn=fn)
         elif not main and isinstance(v, ast.Call) and isinstance(v.func, ast.Name) and v.func.id == "ObtainQuantity":
